@@ -825,3 +825,48 @@ def _c10():
 
 
 _c10()
+
+
+# ----------------------------------------------------------------------------------------------- C19
+def _c19():
+    R("c19-flat-condition-and", D, '        if sys._g.attrs["groups"][n] == "" or not group:', '        if sys._g.attrs["groups"][n] == "" and not group:', fires=["C19"])
+    R("c19-cluster-loop-over-groups-registry", D, '''            for n in sys._g.attrs["nodes"]:
+                if sys._g.attrs["groups"][n] == g:
+                    add_node(sg, n, bd_conf["node"], ldf)''', '''            for n in sys._g.attrs["groups"].values():
+                if n == g:
+                    add_node(sg, n, bd_conf["node"], ldf)''', fires=["C19"])
+    R("c19-name-override-before-kind", D, '''        # component type overrieds
+        if comp in attrs:
+            for key in attrs[comp]:
+                conf[key] = attrs[comp][key]
+        # component instance overrides
+        if name in attrs:
+            for key in attrs[name]:
+                conf[key] = attrs[name][key]''', '''        # component instance overrides
+        if name in attrs:
+            for key in attrs[name]:
+                conf[key] = attrs[name][key]
+        # component type overrieds
+        if comp in attrs:
+            for key in attrs[comp]:
+                conf[key] = attrs[comp][key]''', fires=["C19"])
+    R("c19-gcolor-mix-inverted", D, "    return mpl.colors.to_hex((1 - mix) * c1 + mix * c2)", "    return mpl.colors.to_hex(mix * c1 + (1 - mix) * c2)", fires=["C19"])
+    R("c19-nice-float-milli-decimals", D, '        return "{}m".format(round(f * 1e3, 3 - (4 + pwr)))', '        return "{}m".format(round(f * 1e3, 2 - (4 + pwr)))', fires=["C19"])
+    R("c19-nice-float-micro-scale", D, '        return "{}u".format(round(f * 1e6, 3 - (7 + pwr)))', '        return "{}u".format(round(f * 1e9, 3 - (7 + pwr)))', fires=["C19"])
+    R("c19-nice-float-band-gap", D, "    elif pwr < -7:", "    elif pwr < -8:", fires=["C19"])
+    R("c19-edge-map-by-position", D, '    p = dict(zip(sys._g.attrs["nodes"].values(), sys._g.attrs["nodes"].keys()))', '    p = [c._params["name"] for c in sys._g.nodes()]', fires=["C19", "C16"])
+    R("c19-edge-endpoints-same", D, "        graph.add_edge(pydot.Edge(p[ep[0]], p[ep[1]], **bd_conf[\"edge\"]))", "        graph.add_edge(pydot.Edge(p[ep[0]], p[ep[0]], **bd_conf[\"edge\"]))", fires=["C19"])
+    R("c19-maxloss-isclose", D, "    if maxloss == 0.0:", "    if np.isclose(maxloss, 0.0):", fires=["C19"])
+    R("c19-mix-not-normalised", D, '    df["Mix"] = df["Loss (W)"].to_numpy() / maxloss', '    df["Mix"] = df["Loss (W)"].to_numpy()', fires=["C19"])
+    R("c19-phase-mean-unweighted", D, '''            avg += phases[key] * df2[df2.Phase == key]["Loss (W)"].to_numpy().astype(
+                np.dtype(float)
+            )''', '''            avg += df2[df2.Phase == key]["Loss (W)"].to_numpy().astype(
+                np.dtype(float)
+            )''', fires=["C19"])
+    R("c19-label-shows-mix", D, '                name, _nice_float(ldf[ldf.Component == name]["Loss (W)"].to_list()[0])', '                name, _nice_float(ldf[ldf.Component == name]["Mix"].to_list()[0])', fires=["C19"])
+    R("c19-legend-always", D, "    if loss is not None:\n        gconf = copy.deepcopy(_DEF_GRADIENT)", "    if True:\n        gconf = copy.deepcopy(_DEF_GRADIENT)", fires=["C19"])
+    R("c19-kind-of-first-node", D, '        comp = type(sys._g[sys._g.attrs["nodes"][name]]).__name__', '        comp = type(sys._g[0]).__name__', fires=["C19"])
+    R("eq-c19-flat-condition-commuted", D, '        if sys._g.attrs["groups"][n] == "" or not group:', '        if not group or "" == sys._g.attrs["groups"][n]:', silent=["C19"])
+
+
+_c19()
